@@ -769,8 +769,12 @@ var recKinds = []*recKind{
 		},
 		get: func(p interface{}) []interface{} { return fromList(p.(*pack.StatTransactionPack).GetRecords()) }},
 	{name: "StatTransactionPack1", rec: "TransactionRec",
-		mkPack: func(r *rand.Rand) interface{} { p := pack.NewStatTransactionPack1(); p.Version = txVersion(r); return p },
-		mkRec:  func() interface{} { return pack.NewTransactionRec() }, setters: []string{"enum", "list"},
+		mkPack: func(r *rand.Rand) interface{} {
+			p := pack.NewStatTransactionPack1()
+			p.Version = txVersion(r)
+			return p
+		},
+		mkRec: func() interface{} { return pack.NewTransactionRec() }, setters: []string{"enum", "list"},
 		set: func(p interface{}, how string, items []interface{}) {
 			if how == "enum" {
 				p.(*pack.StatTransactionPack1).SetRecords(len(items), &sliceEnum{items: items})
